@@ -79,6 +79,11 @@ int main(int argc, char** argv) {
     D.push_back(p - 1);
     D.push_back(p + 1);
   }
+  // huge day counts (beyond 2^53 us, where a double can no longer hold every microsecond): a few microseconds around
+  // exact multiples of a day, an hour and a minute
+  for (uint64_t days : vector<uint64_t>{104249, 104250, 104251, 200000, 1000000, 12345678, 100000000, 106751990})
+    for (uint64_t unit : vector<uint64_t>{86400 * S, 3600 * S, 60 * S})
+      for (int64_t d : {-40, -3, -2, -1, 0, 1, 2, 40}) D.push_back(days * 86400 * S + unit + d);
   D.push_back(0);
   D.push_back((1ULL << 63) - 1);
   D.push_back(1ULL << 62);
